@@ -7,9 +7,12 @@
   (three binary searches on headers + in-bucket scans) are compared with
   `Spec.prefixIds` by the correspondence stream: partial.
 -/
+import CSD.Generated.Bodies
+import CSD.Model.SourceText
 import CSD.Lemmas.Prefix
 import CSD.Lemmas.IdIter
 import CSD.Lemmas.PFCMeta
+import CSD.Lemmas.RPDACPrefix4
 
 namespace CSD.Props.C04
 open CSD
@@ -34,12 +37,40 @@ theorem id_range_iterator_empty (fuel : Nat) :
     IdIter.Contig.drain fuel (IdIter.Contig.mk' 0 0) = [] :=
   IdIter.contig_empty fuel
 
-/-- Full statement, not yet proved for the search algorithm of any kind
+/-- **RPDAC prefix search is exact** (model of `StringDictionaryRPDAC::locatePrefix`: one binary search
+for any match, one for the left boundary, one for the right boundary, each comparing through
+`extractPrefixAndCompareDAC` / `expandRuleAndComparePrefixDAC`): for every valid dictionary, every
+well-founded grammar and symbol sequences representing it, and every non-empty NUL-free pattern, the
+returned ID range `[lo, hi]` contains exactly the members that start with the pattern — `(0,0)` iff there
+is none — with every comparison inside the pattern's buffer. -/
+theorem rpdac_prefix_search_exact (d : RPDAC.D) (S : List Str) (r : RPDAC.Represents d S)
+    (hv : validDict S = true) (p : Str) (hp : PFC.nulFree p) (hne : p ≠ []) :
+    ∃ lo hi, RPDAC.locatePrefix d (RPDAC.bytesNat p) = some (lo, hi) ∧
+      ((lo = 0 ∧ hi = 0 ∧ ∀ id (h1 : 1 ≤ id) (h2 : id ≤ S.length), isPrefix p (S[id - 1]'(by omega)) = false) ∨
+       (1 ≤ lo ∧ lo ≤ hi ∧ hi ≤ S.length ∧
+         ∀ id (h1 : 1 ≤ id) (h2 : id ≤ S.length), (isPrefix p (S[id - 1]'(by omega)) = true ↔ lo ≤ id ∧ id ≤ hi))) := by
+  obtain ⟨_, hn, hs, _⟩ := PFC.validDict_facts hv
+  exact RPDAC.locatePrefix_represents d S r hn hs p hp hne
+
+/-- The comparison the three searches use is `strncmp(stored, pattern, |pattern|)`. -/
+theorem rpdac_prefix_compare_is_strncmp (g : RePair.Grammar) (hwf : g.wf = true) (syms : List Nat)
+    (hval : ∀ s ∈ syms, s < g.terminals + g.rules.length) (s p : Str)
+    (hexp : g.expand syms = RPDAC.bytesNat s) (hs : PFC.nulFree s) (hp : PFC.nulFree p) (hne : p ≠ []) :
+    RPDAC.comparePrefixDAC g syms (RPDAC.bytesNat p) = some (scmp (s.take p.length) p) :=
+  RPDAC.comparePrefixDAC_eq g hwf syms hval s p hexp hs hp hne
+
+/-- Full statement for PFC, not yet proved (the RPDAC algorithm is proved above)
 (`prefix_search_partial`): for every valid `S`, bucket size and non-empty pattern,
 `locatePrefix (build b S) p = Spec.prefixIds S p` with all reads in bounds. -/
 def PrefixSearchStatement (locatePrefix : List Str → Str → Option (List Nat)) : Prop :=
   ∀ S p, validDict S = true → p ≠ [] → locatePrefix S p = some (Spec.prefixIds S p)
 
 example : Spec.prefixIds [[0x61, 0x62], [0x61, 0x62, 0x63], [0x62]] [0x61] = [1, 2] := by decide
+
+/-- The prefix-search model was written against the current text of the C++ functions it mirrors. -/
+theorem models_match_source_text :
+    Generated.body_RPDAC_locatePrefix = SourceText.body_RPDAC_locatePrefix ∧
+    Generated.body_RePair_comparePrefixDAC = SourceText.body_RePair_comparePrefixDAC ∧
+    Generated.body_RePair_comparePrefixRule = SourceText.body_RePair_comparePrefixRule := ⟨rfl, rfl, rfl⟩
 
 end CSD.Props.C04
